@@ -11,14 +11,17 @@ from ..pathcond import implied
 MANIFEST = {
     'technique': 'sharing-contract table (SHARED vs COPIED classification of each state component on every path of copy/proxy/flow_proxy/link_with/unlink); positional '
             'provenance check of __reduce__ tuples against reconstructor signatures; dead-optional-parameter rule for constructors; stale-alias rule for copy_like; '
-            'must-follow rules for the cached views and the lookup cache of a copy target; storability rule for attributes of hand-built instances',
+            'must-follow rules for the cached views and the lookup cache of a copy target; storability rule for attributes of hand-built instances; must-pass rule '
+            'for copy_like; proxy-aware unlink contract; constructor slot coverage; cross-package index-map rule',
     'text': 'Decides for every input: copy() copies flows, phase and thermal condition; flow_proxy shares flow data only; proxy shares the indexer and the thermal '
             'condition; link_with shares exactly the parts selected by its flags on every path; unlink copies data, phase and thermal condition and resets caches; '
             'every __reduce__ tuple lines up position by position with its reconstructor; every optional constructor argument that is compared with None is also '
             'used as a value (so it cannot be silently discarded); copy_like implementations use no stale alias of re-bound containers, and the storage / phase '
             "tuple they re-bind on the target is followed by dropping the target's cached mass/volume views and re-selecting its lookup cache; every attribute "
-            'stored on an instance built with K.__new__(K) in the stream, indexer and sparse modules is storable. Equality of observable state after unpickling is '
-            'not decided.',
+            'stored on an instance built with K.__new__(K) in the stream, indexer and sparse modules is storable. copy_like copies the thermal condition on every '
+            'normal path; unlink re-binds the whole indexer (a proxy shares the indexer object); every slot the inherited copy/proxy/link methods read is assigned '
+            'by MultiStream.__init__; on every path of copy_like where the property packages differ each value moves through the index_overlap pair. Equality of '
+            'observable state after unpickling is not decided.',
 }
 
 ST = 'thermosteam/_stream.py'
